@@ -1,6 +1,7 @@
 """Per-property checks. Each function takes a vp.Check and either returns (held) or
 calls chk.violation(...) (exit 1) or raises vp.Machinery (exit 2)."""
 import json
+import random
 import os
 
 import gossip as G
@@ -241,6 +242,21 @@ def gossip_family(chk, mc_inv, mc_props, trace_inv, require_ops=(), module="Goss
         cc = dict(cc, **xc)
         nodes = sorted(cc["Node"])
         beh, info = G.gen_cover(chk, "%s-cover%d" % (label, i), cc, module=module, spec=spec, view="ViewCover")
+        # a cover too long to replay in reasonable time is sampled (seeded); the check then does not claim to
+        # have executed every transition of that model
+        cap = 120000 if chk.tier == "quick" else 500000
+        if info["steps"] > cap:
+            rnd = random.Random(chk.seed * 977 + i)
+            order = list(range(len(beh)))
+            rnd.shuffle(order)
+            keep, total = [], 0
+            for j in order:
+                if total + len(beh[j]) > cap:
+                    continue
+                keep.append(j)
+                total += len(beh[j])
+            beh = [beh[j] for j in sorted(keep)]
+            info = dict(info, sampled_paths=len(beh), sampled_steps=total, uncovered_edges=-1)
         covers.append(info)
         chk.exhaustive = chk.exhaustive and info["uncovered_edges"] == 0
         v, st = run_schedules(chk, dict(sched_base(nodes), behaviours=beh, maxSlots=cc["MaxSlots"],
